@@ -18,9 +18,9 @@ import (
 )
 
 // universe of stored paths of target t1
-// leaves 0..4, then the containers that can only be stored as tombstones
+// leaves 0..4, then the containers / the list entry that can only be stored as tombstones
 const (
-	VNP     = 7
+	VNP     = 8
 	VLeaves = 5
 )
 
@@ -38,8 +38,10 @@ func VPath(i int) string {
 		return "/l[k=10]/x"
 	case 5:
 		return "/a/b"
+	case 6:
+		return "/a"
 	}
-	return "/a"
+	return "/l[k=1]"
 }
 
 // VCovers: node i is node j or an element-boundary ancestor of it (from the parsed elements)
@@ -52,6 +54,8 @@ func VCovers(i, j int) bool {
 		return j == 0
 	case 6:
 		return j == 0 || j == 1 || j == 2 || j == 5
+	case 7:
+		return j == 3
 	}
 	return false
 }
